@@ -18,6 +18,8 @@ import (
 
 func init() { Registry["C04"] = Check{Level: "model_checking", Fn: runC04} }
 
+var c04Extra func(r *ev.Run)
+
 func c04Probes(rows []dbgen.Row) []int64 {
 	set := map[int64]bool{math.MinInt64: true, math.MaxInt64: true, 0: true, -1: true, 1: true}
 	for i, r := range rows {
@@ -49,6 +51,11 @@ func runC04(r *ev.Run) {
 	b := quickBounds(r)
 	r.Set("bounds", fmt.Sprintf("%+v", b))
 	cols := []string{"a", "b", "c", "d", "e", "rowid"}
+	defer func() {
+		if c04Extra != nil {
+			c04Extra(r)
+		}
+	}()
 	forTableShapes(r, b, func(si *ShapeImage) {
 		t := &si.Spec.Tables[0]
 		rows := si.Img.TableRows["t1"]
@@ -116,6 +123,10 @@ func runC04(r *ev.Run) {
 			}
 		}
 	})
+}
+
+func init() {
+	c04Extra = func(r *ev.Run) { zooRun(r, "C04") }
 }
 
 func CopyRowOrNil(r sqlittle.Row) []interface{} {
